@@ -15,3 +15,17 @@ __CPROVER_assigns(*val)
 __CPROVER_ensures(DV_CLAUSE(0, key, __CPROVER_return_value, *val) && DV_CLAUSE(1, key, __CPROVER_return_value, *val) &&
                   DV_CLAUSE(2, key, __CPROVER_return_value, *val) && DV_CLAUSE(3, key, __CPROVER_return_value, *val))
 __CPROVER_ensures(__CPROVER_return_value != CO_ERR_NONE ==> *val == __CPROVER_old(*val));
+
+/* byte-wide view (1001h error register): reads deliver G_DVB_VAL while G_DVB_OK, writes update it */
+extern uint32_t G_DVB_KEY; extern _Bool G_DVB_OK; extern uint8_t G_DVB_VAL; extern uint32_t G_DVB_WR_N;
+CO_ERR CODictRdByte(CO_DICT *cod, uint32_t key, uint8_t *val)
+__CPROVER_requires(cod == &V_NODE.Dict && val != NULL)
+__CPROVER_assigns(*val)
+__CPROVER_ensures(DEV(key) == DEV(G_DVB_KEY) ==> ((__CPROVER_return_value == CO_ERR_NONE) == G_DVB_OK && (G_DVB_OK ==> *val == G_DVB_VAL)))
+__CPROVER_ensures(__CPROVER_return_value != CO_ERR_NONE ==> *val == __CPROVER_old(*val));
+CO_ERR CODictWrByte(CO_DICT *cod, uint32_t key, uint8_t val)
+__CPROVER_requires(cod == &V_NODE.Dict)
+__CPROVER_assigns(G_DVB_VAL, G_DVB_WR_N, G_TYPE_STATE)
+__CPROVER_ensures(DEV(key) == DEV(G_DVB_KEY) ==> ((__CPROVER_return_value == CO_ERR_NONE) == G_DVB_OK && G_DVB_VAL == (G_DVB_OK ? val : __CPROVER_old(G_DVB_VAL)) &&
+                  G_DVB_WR_N == __CPROVER_old(G_DVB_WR_N) + 1))
+__CPROVER_ensures(DEV(key) != DEV(G_DVB_KEY) ==> (G_DVB_VAL == __CPROVER_old(G_DVB_VAL) && G_DVB_WR_N == __CPROVER_old(G_DVB_WR_N)));
